@@ -288,6 +288,39 @@ def failing_source(ctx, n_cases):
             if got != exp:
                 ctx.fail(["cache", "truncated-after-failure"], "read #%d through the cache gave %d items without any error, the sequence has %d (the source had failed at item %d during an earlier read)" % (step, len(got), len(exp), at), case); break
 
+def held_params_law(ctx, n_cases):
+    """a supervised source whose params is a dict the source (or the caller) keeps: constructing and reading SupervisedSimulations over it never changes that dict, and each
+    simulation reports the same params at every look-up - whatever is read from its siblings over the same source in between"""
+    from coba.pipes import IdentitySource
+    from coba.environments import SupervisedSimulation
+    rng = ctx.rng
+    for _ in range(n_cases):
+        n = rng.choice([1, 3, 5]); rows = [([float(i), float(rng.randrange(5))], rng.randrange(1, 4)) for i in range(n)]
+        meta = {"source": "rows", "version": rng.randrange(9)}; source = IdentitySource(rows, meta)
+        views = [rng.choice(["c", "r"]) for _ in range(rng.choice([1, 2, 3]))]
+        case = dict(what="a source whose params dict is held by the caller", rows=repr(rows), params=dict(meta), label_types=views)
+        ctx.count("held-params", repr(case), len(views) >= 2)
+        try:
+            envs = [SupervisedSimulation(source, None, lt) for lt in views]
+            held = copy.deepcopy(meta); rows0 = copy.deepcopy(rows); seen = {}
+            for step in range(rng.choice([2, 4, 6])):
+                k = rng.randrange(len(envs)); part = rng.random() < 0.3
+                it = iter(envs[k].read())
+                got = [canon(x) for x in (islice(it, 1) if part else it)]
+                del it
+                if meta != held or rows != rows0:
+                    ctx.fail(["reread", "caller-data-modified", "source-params"], "reading view %d (%s) changed the dict the source holds: %r -> %r" % (k, views[k], held, meta), case); break
+                if not part:
+                    p = dict(envs[k].params)
+                    if k in seen and seen[k] != (p, got): ctx.fail(["reread", "params-change", "held-params"], "view %d (%s) reported params %r and now %r (or other interactions) after reads of its siblings" % (k, views[k], seen[k][0], p), case); break
+                    seen[k] = (p, got)
+                for j, (p0, _) in seen.items():
+                    if dict(envs[j].params) != p0: ctx.fail(["reread", "params-change", "held-params"], "view %d (%s) reported params %r, after a read of view %d it reports %r" % (j, views[j], p0, k, dict(envs[j].params)), case); break
+                else: continue
+                break
+        except Exception as e:
+            ctx.fail(["reread", "raises", errname(e), "held-params"], "raised %s: %s on %s" % (errname(e), str(e)[:100], case), case)
+
 def corpus(ctx):
     """fixed finding: logged Shuffle read partially, then fully"""
     import coba
@@ -386,6 +419,7 @@ def run(ctx):
     siblings(ctx, ctx.n(60, 800))
     run_cache(ctx, ctx.n(400, 5000))
     failing_source(ctx, ctx.n(150, 2000))
+    held_params_law(ctx, ctx.n(60, 800))
     run_pipelines(ctx, ctx.n(400, 5000))
 
 def replay(r):
